@@ -226,7 +226,7 @@ theorem equal_meta_irrelevant (a b a' b' : Val) (ha : Data a) (hb : Data b) (ha'
   rw [Bool.eq_iff_iff, equal_iff_strip a' b' ha' hb', equal_iff_strip a b ha hb, h1, h2]
 
 /-- functions and traps are equal to nothing, not even to themselves -/
-theorem function_never_equal (k : Kind) (r : Bool) (p b e : Val) (m : Name) (x : Val) :
+theorem function_never_equal (k : Kind) (r p b e : Val) (m : Name) (x : Val) :
     equalInternal (.fn k r p b e m) x = false ∧ equalInternal (.native .cons) x = false ∧ equalInternal (.trap p b) x = false := by
   exact ⟨equalInternal_fn .., equalInternal_native .., equalInternal_trap ..⟩
 
